@@ -232,6 +232,14 @@ def fresh_in_call(x: Any, except_at: tuple = ()) -> bool:
     return False
 
 
+def drawn_tick(x: Any) -> int:
+    """Tick (position in the sequence of draws of this call) at which x was produced, -1 if x is not a draw of this call."""
+    for i, d in enumerate(RNG_RECORDER):
+        if isinstance(x, (bytes, bytearray)) and bytes(x) == d:
+            return i
+    return -1
+
+
 def typed(x: Any, t: Any) -> bool:
     return isinstance(x, t)
 
